@@ -193,7 +193,8 @@ def _fails(desc) -> List[dict]:
 
 
 def minimise(desc, viols: List[dict]) -> List[dict]:
-    """Blame the smallest closed subtree that fails the same clause on its own (its site and witness replace the parent's)."""
+    """Blame the smallest closed subtree that fails the same clause -- failing that, any clause -- on its own (its site and
+    witness replace the parent's)."""
     if not viols:
         return viols
     subs = sorted(set(sg.subtrees(desc)), key=lambda d: (len(sg.describe(d)), repr(d)))
@@ -205,6 +206,11 @@ def minimise(desc, viols: List[dict]) -> List[dict]:
             if hit:
                 repl = hit[0]
                 break
+        if repl is None:  # no subtree fails the same clause: a subtree that is broken in another way still takes the blame
+            for s in subs:   # (e.g. a leaf writing the wrong byte makes a terminated wrapper mis-frame)
+                if _fails(s):
+                    repl = _fails(s)[0]
+                    break
         out.append(repl or v)
     return out
 
